@@ -243,3 +243,32 @@ def hexMesh (v : List (List Rat)) : Mesh :=
       [[[0, 1, 2, 3, 4, 5, 6, 7]], [[0, 1, 2, 3, 4, 5, 6, 7, 8, 9, 10, 11]], [[0, 1, 2, 3, 4, 5]]]] }
 
 end FeatModel.Refine
+
+namespace FeatModel.Refine
+
+/-- `i`-th binary digit of `j` as a Boolean -/
+def bitOf (j i : Nat) : Bool := (j / 2 ^ i) % 2 == 1
+
+/-- Jacobian determinant of the trilinear map of the hexahedron `t` (FEAT numbering `v_j = (j&1, j>>1&1, j>>2&1)`)
+    at the reference point `(a, b, c) ∈ [0,1]³` -/
+def hexJacAt (M : Mesh) (t : List Nat) (a b c : Rat) : Rat :=
+  let p := fun j d => coord M (t.getD j 0) d
+  let w := fun (bit : Bool) (x : Rat) => if bit then x else 1 - x
+  let s := fun (bit : Bool) => if bit then (1 : Rat) else -1
+  -- column `e` (derivative w.r.t. reference coordinate `e`), component `d`
+  let col := fun (e d : Nat) =>
+    ((List.range 8).map fun j =>
+      p j d * (match e with
+        | 0 => s (bitOf j 0) * w (bitOf j 1) b * w (bitOf j 2) c
+        | 1 => w (bitOf j 0) a * s (bitOf j 1) * w (bitOf j 2) c
+        | _ => w (bitOf j 0) a * w (bitOf j 1) b * s (bitOf j 2))).foldl (· + ·) 0
+  col 0 0 * (col 1 1 * col 2 2 - col 1 2 * col 2 1) - col 1 0 * (col 0 1 * col 2 2 - col 0 2 * col 2 1)
+    + col 2 0 * (col 0 1 * col 1 2 - col 0 2 * col 1 1)
+
+/-- twelve times the tensor-product Simpson rule (nodes 0, 1/2, 1; weights 1/6, 4/6, 1/6) applied to `det J` -/
+def hexVolSimpson12 (M : Mesh) (t : List Nat) : Rat :=
+  let nodes : List (Rat × Rat) := [(0, 1/6), (1/2, 4/6), (1, 1/6)]
+  12 * ((nodes.flatMap fun x => nodes.flatMap fun y => nodes.map fun z =>
+    x.2 * y.2 * z.2 * hexJacAt M t x.1 y.1 z.1).foldl (· + ·) 0)
+
+end FeatModel.Refine
